@@ -73,7 +73,7 @@ def run_unit(repo, unit, work_dir, baseline):
     except FileNotFoundError as e:
         res.update(state='undecided', why='source file missing: %s' % e); return res
     res['functions'] = metas
-    path = os.path.join(work_dir, unit['id'].replace('/', '_') + '.rs')
+    path = os.path.join(work_dir, re.sub(r'\W', '_', unit['id']) + '.rs')
     open(path, 'w').write(text)
     data, stderr, wall = _run_verus(path)
     res['time_s'] = wall
